@@ -10,7 +10,8 @@ def _worksheet_title(value, in_cell: Cell):
     if value[1] and not (value[3] or value[4]):
         raise E2PyclCellException('A reference has a worksheet prefix with an empty title')
 
-    return value[3] or value[4] or in_cell.title
+    # inside a quoted title an apostrophe is written twice: 'It''s'!A1 names the sheet It's
+    return (value[3] or '').replace("''", "'") or value[4] or in_cell.title
 
 
 class MatrixOfCellIdentifiersToken(RegexpBaseToken):
